@@ -86,6 +86,18 @@ CHECKS['C18'] = dict(
          'whole-string equality with a reference are not decided.',
     note='Trusted: clang/LLVM lowering and unrolling, irdump, absint, gf2. Little-endian target. std::string is not analysed '
          '(calls are opaque); sextets are assumed < 64 because only alphabet characters reach the regrouping.')
+CHECKS['C08'] = dict(
+    category='other', design_ref='DESIGN.md 5/C08',
+    technique='abstract interpretation over LLVM IR with a C-string model (symbolic terminator position) and exact-extent buffers; IR dataflow rules',
+    text='Each of the mem*/str* functions is interpreted under its ISO C / POSIX access contract - buffers with exactly n '
+         'bytes (n may be 0), strings with a symbolic terminator position, destinations with exactly the required room - and '
+         'every load/store is proved inside those extents for all lengths and contents; returned pointers lie inside the right '
+         'object or are NULL; strlen/strnlen/strlcpy/strspn/strcspn results obey their definitions; memmove copies overlapping '
+         'ranges from the far end; memcpy uses word accesses only under its alignment guard; comparison results are differences '
+         'of unsigned chars. Byte-exact copied contents and comparison signs are not decided.',
+    note='Trusted: clang lowering (hosted against the system headers, -fno-builtin), irdump, absint/lin, the summaries of '
+         'tolower/toupper and of the sibling libc functions called across units (each analysed on its own). strtok is only '
+         'covered through strchr/strcspn.')
 NA_REASON = 'check not built yet (work in progress; see DESIGN.md section 9)'
 
 m = {"version": 1,
